@@ -151,6 +151,9 @@ class Desc:
     self.has_default = False
     self.default = None            # plain image of the default
     self.frozen = False
+    # [(label, source of a spec of the same kind that is wider in one respect,
+    #   source of a value only the wider spec accepts)]
+    self.wider = []
 
   def ok(self, v, partial=False):
     if is_missing(v):
@@ -178,7 +181,12 @@ def d_int(lo=None, hi=None):
     invalid.append(('below-min', str(lo - 1)))
   if hi is not None:
     invalid.append(('above-max', str(hi + 1)))
-  return Desc(f'Int[{lo},{hi}]', f'T.Int({args})', ok, sorted(valid, key=lambda t: t[1]), invalid)
+  d = Desc(f'Int[{lo},{hi}]', f'T.Int({args})', ok, sorted(valid, key=lambda t: t[1]), invalid)
+  if hi is not None:
+    d.wider.append(('no-max', f'T.Int(min_value={lo})' if lo is not None else 'T.Int()', str(hi + 1)))
+  if lo is not None:
+    d.wider.append(('no-min', f'T.Int(max_value={hi})' if hi is not None else 'T.Int()', str(lo - 1)))
+  return d
 
 
 def d_float(lo=None, hi=None):
@@ -192,7 +200,12 @@ def d_float(lo=None, hi=None):
     invalid.append(('below-min', repr(lo - 0.25)))
   if hi is not None:
     invalid.append(('above-max', repr(hi + 0.25)))
-  return Desc(f'Float[{lo},{hi}]', f'T.Float({args})', ok, valid, invalid)
+  d = Desc(f'Float[{lo},{hi}]', f'T.Float({args})', ok, valid, invalid)
+  if hi is not None:
+    d.wider.append(('no-max', f'T.Float(min_value={lo})' if lo is not None else 'T.Float()', repr(hi + 0.25)))
+  if lo is not None:
+    d.wider.append(('no-min', f'T.Float(max_value={hi})' if hi is not None else 'T.Float()', repr(lo - 0.25)))
+  return d
 
 
 def d_str(regex=None):
@@ -205,8 +218,11 @@ def d_str(regex=None):
     valid.append(('empty-str', "''"))
   else:
     invalid += [('regex-mismatch', "'abd'"), ('regex-mismatch', "''")]
-  return Desc('Str' + (f'({regex})' if regex else ''),
-              f'T.Str(regex={regex!r})' if regex else 'T.Str()', ok, valid, invalid)
+  d = Desc('Str' + (f'({regex})' if regex else ''),
+           f'T.Str(regex={regex!r})' if regex else 'T.Str()', ok, valid, invalid)
+  if regex is not None:
+    d.wider.append(('no-regex', 'T.Str()', "'abd'"))
+  return d
 
 
 def d_bool():
@@ -220,6 +236,7 @@ def d_enum(default='a'):
               [('member', "'b'"), ('member', '3'), ('member', "'a'")],
               [('non-member', "'c'"), ('non-member', '4'), ('non-member', "['a']"), ('None', 'None')])
   d.has_default, d.default = True, default     # an Enum's first argument is its default
+  d.wider.append(('more-members', f"T.Enum({default!r}, ['a', 'b', 3, 'c'])", "'c'"))
   return d
 
 
@@ -260,6 +277,11 @@ def d_list(elem, lo=0, hi=None):
   if hi is not None:
     too_long = '[' + ', '.join((ev * 8)[:hi + 1]) + ']'
     invalid.append(('symbolic-other-spec-too-long', f'pg.List({too_long},value_spec=T.List({elem.src}))'))
+  # a list that was validated against a spec of the same shape whose element
+  # spec is wider in one respect (no upper bound, no regex, more members ...)
+  for lab, wsrc, wbad in elem.wider:
+    body = '[' + ', '.join([ev[0]] * (base_n - 1) + [wbad]) + ']'
+    invalid.append((f'symbolic-wider-spec:{lab}', f'pg.List({body},value_spec=T.List({wsrc}{args[len(elem.src):]}))'))
   if getattr(elem, 'fields', None) and not hasattr(elem, 'cls_name') and any(
       not dd.has_default for k, dd in elem.fields if not isinstance(k, tuple)):
     invalid.append(('missing-required:symbolic-partial-same-spec',
@@ -354,6 +376,15 @@ def d_dict(fields, name=None):
       invalid.append(('symbolic-other-spec-bad-member',
                       'pg.Dict(' + lit([(k, d0.invalid[0][1] if k == k0 else d.valid[0][1]) for k, d in req])
                       + ',value_spec=T.Dict([(T.StrKey(),T.Any())]))'))
+  # a dict that was validated against the same schema but for one member whose
+  # spec is wider in one respect
+  for k0, d0 in consts:
+    if d0.wider and not d0.frozen:
+      for lab, wsrc, wbad in d0.wider:
+        wspec = 'T.Dict([' + ', '.join(f'({k0!r}, {wsrc})' if kk == k0 else _field_src(kk, dd) for kk, dd in fields) + '])'
+        items = lit([(kk, dd.valid[0][1]) for kk, dd in req if kk != k0] + [(k0, wbad)])
+        invalid.append((f'symbolic-wider-spec:{lab}', f'pg.Dict({items},value_spec={wspec})'))
+      break
   d = Desc(name or ('Dict(' + ','.join(str(k) for k, _ in fields) + ')'),
            'T.Dict([' + ', '.join(_field_src(k, dd) for k, dd in fields) + '])', ok, valid, invalid,
            pre=''.join(dd.pre for _, dd in fields))
@@ -916,6 +947,8 @@ def list_ops(sub, n, elem_samples):
               index_error=index_error, result=result)
     if bad and 'symbolic-partial' in bad[0]:
       op['cid'] = f'{kindname}.write/partial-symbolic-value-into-non-partial'   # one input class, any path
+    if bad and 'symbolic-wider-spec' in bad[0]:
+      op['cid'] = f'{kindname}.write/symbolic-value-typed-with-wider-spec'       # one input class, any path
     if batch:
       g = _list_batch_ok(sum(1 for _, _, v in vals if v))
       op['batch_ok'] = lambda b, a, g=g: _on_x(sub, b, a, g)
@@ -1220,6 +1253,8 @@ class _OpList:
     op = dict(src=src, cid=f'{kind}.{name}/{cls}', expect='reject' if why else 'any', why=why, result=result)
     if why and 'symbolic-partial' in why:
       op['cid'] = f'{kind}.write/partial-symbolic-value-into-non-partial'   # one input class, any path
+    if why and 'symbolic-wider-spec' in why:
+      op['cid'] = f'{kind}.write/symbolic-value-typed-with-wider-spec'       # one input class, any path
     if batch is not None:
       g = _dict_batch_ok(batch)
       op['batch_ok'] = lambda b, a, g=g: _on_x(sub, b, a, g)
